@@ -659,20 +659,14 @@ Theorem const_row_returns_true_entries k e s :
   length (cm_row_const k e s) = e /\
   forall c, c < e -> nth c (cm_row_const k e s) garbage = bent (perm s) k c.
 Proof.
-  intros I. unfold cm_row_const.
+  intros I. unfold cm_row_const. set (m := Nat.min (linelen s k) e).
   assert (G0 : good_line (perm s) k (line s k)) by (intros c Hc; apply (I_val s I); exact Hc).
-  destruct (Nat.le_gt_cases (linelen s k) e) as [H|H].
-  - pose proof (good_extend _ _ _ e G0 H) as G. fold (linelen s k) in G.
-    split.
-    + rewrite firstn_length, app_length, brow_length. unfold linelen in *. lia.
-    + intros c Hc. pose proof (good_firstn _ _ _ e G) as G'. apply G'.
-      rewrite firstn_length, app_length, brow_length. unfold linelen in *. lia.
-  - assert (brow (perm s) k (linelen s k) e = []) as ->.
-    { unfold brow. assert (e - linelen s k = 0) as -> by lia. auto. }
-    rewrite app_nil_r. split.
-    + rewrite firstn_length. unfold linelen in *. lia.
-    + intros c Hc. pose proof (good_firstn _ _ _ e G0) as G'. apply G'.
-      rewrite firstn_length. unfold linelen in *. lia.
+  pose proof (good_firstn _ _ _ m G0) as G1.
+  assert (L1 : length (firstn m (line s k)) = m) by (rewrite firstn_length; unfold m, linelen; lia).
+  pose proof (good_extend _ _ _ e G1) as G. rewrite L1 in G. specialize (G ltac:(unfold m; lia)).
+  assert (LT : length (firstn m (line s k) ++ brow (perm s) k m e) = e).
+  { rewrite app_length, L1, brow_length. unfold m. lia. }
+  split; [exact LT|]. intros c Hc. apply G. rewrite LT. exact Hc.
 Qed.
 
 (* ---- two rows ---- *)
